@@ -1886,7 +1886,7 @@ def cumcount(
         _apply_cumulative(
             "count",
             **locals(),
-        )
+        ).astype(np.int64)  # unsigned group codes would give an unsigned count: 0 - 1 wraps
         - 1
     )  # Adjust to start from 0 like pandas
 
